@@ -69,7 +69,7 @@ class OpsMixin:
             elif isinstance(op, ast.Sub):
                 yield p, (VInt if kind == "int" else VReal)(x - y)
             elif isinstance(op, ast.Mult):
-                yield p, self.mul(ex, kind, x, y)
+                yield p, self.mul(ex, kind, x, y, p)
             elif isinstance(op, ast.Div):
                 xr, yr = to_real(a), to_real(b)
                 if ex.spec:
@@ -146,13 +146,17 @@ class OpsMixin:
                                z3.If(Val.is_VBool(t), z3.If(Val.b(t), z3.RealVal(1), z3.RealVal(0)), Val.r(t))))
         return v
 
-    def mul(self, ex, kind, x, y):
+    def mul(self, ex, kind, x, y, p=None):
         xs, ys = z3.simplify(x), z3.simplify(y)
         lin = z3.is_int_value(xs) or z3.is_rational_value(xs) or z3.is_int_value(ys) or z3.is_rational_value(ys)
         if lin:
             return (VInt if kind == "int" else VReal)(x * y)
         if kind == "int":
-            return VInt(x * y)
+            # symbolic product: the same uninterpreted rmul term as for reals (+ integrality of the product)
+            t = self.rmul(ex, z3.ToReal(x), z3.ToReal(y))
+            if p is not None:
+                p.assume(t == z3.ToReal(z3.ToInt(t)))
+            return VInt(z3.ToInt(t))
         return VReal(self.rmul(ex, x, y))
 
     # non-linear real operations are abstracted by uninterpreted functions (sound);
@@ -266,6 +270,21 @@ class OpsMixin:
                 yield p, VBool(b.t < a.t)
             else:
                 yield p, VBool(b.t <= a.t)
+            return
+        if isinstance(a, VSeq) and a.kind == "ndarray" and self.is_num(b):
+            # numpy broadcasting of an ordering against a scalar: elementwise boolean array
+            r = V.fresh("cmp", z3.SeqSort(BoolS))
+            i = V.fresh("ci", IntS)
+            tb = to_real(b) if a.elem is Real else (b.t if isinstance(b, VInt) else None)
+            ta = a.t[i]
+            if tb is None:
+                ta, tb = z3.ToReal(a.t[i]), to_real(b)
+            p.assume(z3.Length(r) == z3.Length(a.t))
+            p.assume(z3.ForAll([i], z3.Implies(z3.And(i >= 0, i < z3.Length(a.t)), r[i] == self._ord(op, ta, tb))))
+            res = VSeq(r, Bool, "ndarray")
+            res.pointwise = (lambda k, a=a, tb=tb, op=op: self._ord(
+                op, (a.t[k] if (a.elem is Real or isinstance(b, VInt)) else z3.ToReal(a.t[k])), tb))
+            yield p, res
             return
         if isinstance(a, (VTuple, VSeq)) and isinstance(b, (VTuple, VSeq)):
             yield p, VBool(self.lex_compare(ex, p, op, a, b))
@@ -579,8 +598,15 @@ class OpsMixin:
             st, sp, se, _ = slice_indices(idx.t, n)
             if not ex.implied(p, se == 1):
                 raise Unsupported("sequence slicing with step != 1 at line %s" % getattr(node, "lineno", "?"))
-            ln = z3.If(sp > st, sp - st, 0)
-            yield p, VSeq(z3.SubSeq(v.t, st, ln), v.elem, v.kind)
+            st, sp = z3.simplify(st), z3.simplify(sp)
+            ln = z3.simplify(z3.If(sp > st, sp - st, 0))
+            sub = z3.SubSeq(v.t, st, ln)
+            if not ex.spec:
+                # pointwise facts about the extracted sub-sequence (st, sp are clamped into [0, n])
+                j = V.fresh("sj", IntS)
+                p.assume(z3.Length(sub) == ln)
+                p.assume(z3.ForAll([j], z3.Implies(z3.And(j >= 0, j < ln), sub[j] == v.t[st + j])))
+            yield p, VSeq(sub, v.elem, v.kind)
             return
         if isinstance(v, VStr) and isinstance(idx, (VInt,)):
             n = z3.Length(v.t)
